@@ -560,6 +560,8 @@ int __wrap_pthread_join(pthread_t th, void **ret)
       t->real = 0;
       return 0;
     }
+  // pthread_t values are reused by glibc once a thread has been joined: forget this one
+  t->real = 0;
   return __real_pthread_join(th, ret);
 }
 
